@@ -68,7 +68,7 @@ class Leg(object):
 
         return st.one_of(
             st.fixed_dictionaries({"mode": st.just("wrap"), "items": items, "how": st.sampled_from(["feature", "mapping", "update"]),
-                                   "from_db": st.booleans()}),
+                                   "from_db": st.booleans(), "base": st.sampled_from(["attrs", "attrs", "no-ninth-column", "empty-ninth-column"])}),
             st.fixed_dictionaries({"mode": st.just("view"), "items": lmap, "gtf": st.booleans()}),
             st.fixed_dictionaries({"mode": st.just("json"), "items": lmap, "db": st.booleans()}),
             st.fixed_dictionaries({"mode": st.just("merge"), "a": nmap, "b": nmap, "numeric_sort": st.booleans(),
@@ -115,9 +115,15 @@ class Leg(object):
         import gffutils
         from gffutils.feature import feature_from_line
 
+        base = case.get("base", "attrs")
         if case["from_db"]:
             db = gffutils.create_db(LINE + "\n", ":memory:", from_string=True)
             f = db["base"]
+            base = "attrs"
+        elif base == "no-ninth-column":
+            f = feature_from_line("chr1\tsrc\tgene\t10\t20\t.\t+\t.")
+        elif base == "empty-ninth-column":
+            f = feature_from_line("chr1\tsrc\tgene\t10\t20\t.\t+\t.\t")
         else:
             f = feature_from_line(LINE)
         _set_all(f, case["items"], case["how"])
@@ -129,9 +135,16 @@ class Leg(object):
                                % (k, v, case["how"], k, got, want), sig={"kind": "wrap", "how": case["how"]})
             if f[k] is not f.attributes[k] and list(f[k]) != want:
                 return Failure("Feature[%r] = %r differs from attributes[%r]" % (k, f[k], k), sig={"kind": "wrap"})
-        for k in ("ID", "Name"):
-            if k not in dict(case["items"]) and list(f.attributes[k]) != {"ID": ["base"], "Name": ["n1", "n2"]}[k]:
-                return Failure("untouched attribute %r changed to %r" % (k, f.attributes[k]), sig={"kind": "wrap-other"})
+        if base == "attrs":
+            for k in ("ID", "Name"):
+                if k not in dict(case["items"]) and list(f.attributes[k]) != {"ID": ["base"], "Name": ["n1", "n2"]}[k]:
+                    return Failure("untouched attribute %r changed to %r" % (k, f.attributes[k]), sig={"kind": "wrap-other"})
+        else:
+            # another feature parsed from an attribute-less line afterwards is empty
+            g = feature_from_line("chr1\tsrc\tgene\t10\t20\t.\t+\t." + ("\t" if base == "empty-ninth-column" else ""))
+            if len(list(g.attributes.keys())) != 0:
+                return Failure("a feature parsed from an attribute-less line carries attributes %r set on an earlier feature"
+                               % dict(g.attributes.items()), sig={"kind": "shared-empty-attributes"})
         return None
 
     # -- 2. the switch is a view
